@@ -88,6 +88,7 @@ def run(rep, idx, tier):
     from . import glue
     glue.shadow_hash(rep, idx, "C05.8")
     glue.shadow_give_up_bound(rep, idx, "C05.11")
+    glue.shadow_chunk_keys(rep, idx, "C05.12")
     glue.chunk_width(rep, "C05.9", idx, c, r.SH)
 
 
